@@ -19,7 +19,10 @@ RULE = ('index-expression grammar on annotated arrays filled with their own flat
         '(thorough: also (2,3,6), (3,3,6), (3,6)); (d) seeded random '
         'expressions from the full grammar on shapes up to (3,3,6), s0 in {0,-5,7,-64}, three rates; (e) chains of 2-3 '
         'expressions; (f) concat along time/channel/epoch of adjacent splits, of splits with a gap/overlap/other rate/other '
-        'labels/other metadata/other ndim, and of pieces obtained by real slicing; (g) arithmetic, copy, astype. '
+        'labels/other metadata/other ndim, and of pieces obtained by real slicing; (f2) adjacent pieces along time / channel / epoch at 100 kHz '
+        'and 195312.5 Hz with exactly ONE attribute of ONE piece perturbed minimally (rate by relative 1e-9, 1e-6, 1e-4 and +-0.5 Hz; s0 by +-1; '
+        'one label replaced by an equal-looking one of another type; one nested metadata value; one more dimension) - must be rejected, '
+        'the unperturbed pieces must restore the original; (g) arithmetic, copy, astype. '
         'Integer lists also as 1-D integer ndarrays inside tuples. In 7 of 9 cases the channel labels and metadata are heterogeneous '
         'Python objects (mixed ints/strings, tuples, strings, float/None/tuple mixes; metadata dicts holding them), compared with the '
         'original objects by identity or typed ==. '
@@ -63,6 +66,12 @@ PALETTES = [
     [('A', 0), ('A', 1), ('B', 0), ('B', 1), ('C', 0), ('C', 1), ('D', 0), ('D', 1)],   # 2: tuples
     ['ch0', 'ch1', 'ch2', 'ch3', 'ch4', 'ch5', 'ch6', 'ch7'],                   # 3: strings
     [2.5, None, 'a', ('t', 2), 7, ('u',), 'b', -3],                             # 4: float, None, str, tuples, ints
+    # 5-8: FALSY first label (the scalar label of 1-D arrays) and equal-looking neighbours of another type at 70+2j / 70+2j+1
+    #      (pairwise unequal for Python's ==, so that psiaudio and the identifier model agree on what "the same label" is)
+    [0, '0', None, '', 1, '1', (), 'None'],
+    [False, 'False', None, 'x', 2, '2', ('',), 0.5],
+    ['', ' ', None, 'None', 3, '3', (), 0.25],
+    [0.0, '0.0', None, 'y', 4, '4', (0,), -1],
 ]
 BAD = -999
 
@@ -97,14 +106,19 @@ def _lab_id(lab, obj):
 
 
 def _md_obj(lab, ident):
-    if not lab:
-        return {'id': ident}
-    return {'id': ident, 'tag': PALETTES[lab][(ident - 90) % 8], 'n': [ident, str(ident), (ident,)]}
+    """identifiers >= 1000 denote the entry ident-1000 with ONE nested value changed"""
+    k = ident - 1000 if ident >= 1000 else ident
+    d = {'id': k} if not lab else {'id': k, 'tag': PALETTES[lab][(k - 90) % 8], 'n': [k, str(k), (k,)], 'z': 0}
+    if ident >= 1000:
+        d['n'] = [k] if not lab else [k, str(k), (k, 0)]
+    return d
 
 
 def _md_id(lab, obj):
-    if isinstance(obj, dict) and type(obj.get('id')) is int and _same(obj, _md_obj(lab, obj['id'])):
-        return obj['id']
+    if isinstance(obj, dict) and type(obj.get('id')) is int:
+        for ident in (obj['id'], obj['id'] + 1000):
+            if _same(obj, _md_obj(lab, ident)):
+                return ident
     return BAD
 
 
@@ -214,6 +228,10 @@ def impl(case):
             o = _obs(r, lab)
             steps.append(o)
             if 'scalar' in o:
+                break
+            if lab and _wf(o):
+                # a malformed intermediate (recorded finding) carrying e.g. a tuple or string as its single label: what
+                # indexing does to that label next depends on the label's own type; the identifier model stops here
                 break
             x = r
         return {'steps': steps}
@@ -876,6 +894,101 @@ def _cat_cases(tier, rng):
             yield {'k': 'slicecat', 'shape': list(shape), 's0': 4, 'fs': FSS[0], 'axis': -2 if len(shape) == 2 else -3, 'ixss': ixss}
 
 
+def _exact(f):
+    fr = Fraction(float(f))
+    return [fr.numerator, fr.denominator]
+
+
+def _promote(p):
+    """the same piece with one more leading axis of length 1 (ndim mismatch)"""
+    q = dict(p)
+    q['shape'] = [1] + list(p['shape'])
+    if len(p['shape']) == 1:
+        q['ch'] = [p['ch']]
+    else:
+        q['md'] = ['L', [p['md'][1]]]
+    return q
+
+
+def _reject_cases(tier, rng):
+    """adjacent equal pieces restore the original; ONE minimally perturbed attribute of ONE piece must be rejected"""
+    quick = tier == 'quick'
+    rates = [100000.0, 195312.5] + ([] if quick else [1000.0, 25000.0])
+    labs = [5, 6, 7, 8, 1, 0]
+    n_case = 0
+    for shape in ([(6,), (2, 5), (2, 2, 4)] if quick else [(6,), (7,), (2, 5), (3, 4), (2, 2, 4), (3, 2, 5)]):
+        nd = len(shape)
+        axes = [-1] + ([-2] if nd >= 2 else []) + ([-3] if nd == 3 else [])
+        for axis in axes:
+            n = shape[axis]
+            for cuts in ([0, n // 2, n], [0, 1, n - 1, n]):
+                for f in rates:
+                    n_case += 1
+                    lab = labs[n_case % len(labs)]
+                    s0 = [0, -5, 7][n_case % 3]
+                    base = _split_pieces(shape, cuts, axis, s0, _exact(f))
+
+                    def out(ps, expect):
+                        return {'k': 'cat', 'axis': axis, 'pieces': ps, 'expect': expect, 'lab': lab}
+                    yield out(base, 'ok')
+                    for i in range(len(base)):
+                        if quick and len(base) == 3 and i == 1 and axis != -1:
+                            continue
+                        # rate: relative 1e-9, 1e-6, 1e-4 and +-0.5 Hz
+                        for g in (f * (1 + 1e-9), f * (1 + 1e-6), f * (1 - 1e-6), f * (1 + 1e-4), f + 0.5, f - 0.5):
+                            if g == f:
+                                continue
+                            ps = [dict(q) for q in base]
+                            ps[i]['fs'] = _exact(g)
+                            yield out(ps, 'fs')
+                        # one sample of gap / overlap
+                        if axis == -1:
+                            for d in (-1, 1):
+                                ps = [dict(q) for q in base]
+                                ps[i]['s0'] += d
+                                yield out(ps, 'gap')
+                        # one label replaced by an equal-looking one of another type (70+2j <-> 70+2j+1)
+                        if axis != -2:
+                            ps = [dict(q) for q in base]
+                            ch = ps[i]['ch']
+                            if isinstance(ch, list):
+                                if ch:
+                                    j = rng.randrange(len(ch))
+                                    ps[i]['ch'] = ch[:j] + [70 + ((ch[j] - 70) ^ 1)] + ch[j + 1:]
+                                    yield out(ps, 'ch')
+                            else:
+                                ps[i]['ch'] = 70 + ((ch - 70) ^ 1)
+                                yield out(ps, 'ch')
+                        # one metadata entry differing in one nested value
+                        if axis != -3:
+                            ps = [dict(q) for q in base]
+                            md = ps[i]['md']
+                            if md[0] == 'D':
+                                ps[i]['md'] = ['D', md[1] + 1000]
+                                yield out(ps, 'md')
+                            elif md[1]:
+                                j = rng.randrange(len(md[1]))
+                                ps[i]['md'] = ['L', md[1][:j] + [md[1][j] + 1000] + md[1][j + 1:]]
+                                yield out(ps, 'md')
+                        # another dimensionality
+                        if nd < 3:
+                            ps = [dict(q) for q in base]
+                            ps[i] = _promote(ps[i])
+                            yield out(ps, 'ndim')
+    # 1-D pieces stacked as channels / epochs (promotion with np.newaxis): falsy scalar labels must survive
+    for lab in (5, 6, 7, 8, 0):
+        for axis in (-2, -3):
+            a = _split_pieces((5,), [0, 5], -1, 3, _exact(195312.5))[0]
+            b = dict(a, vals=[v + 5 for v in a['vals']])
+            if axis == -2:
+                b['ch'] = a['ch'] + 1
+            else:
+                b['md'] = ['D', a['md'][1] + 1]
+            yield {'k': 'cat', 'axis': axis, 'pieces': [a, b], 'expect': 'ok', 'lab': lab}
+            for g in (195312.5 * (1 + 1e-6), 195313.0):
+                yield {'k': 'cat', 'axis': axis, 'pieces': [a, dict(b, fs=_exact(g))], 'expect': 'fs', 'lab': lab}
+
+
 def _op_cases(tier, rng):
     ops = [['add', 1], ['radd', 3], ['mul', 2], ['neg'], ['abs'], ['copy'], ['copy2'], ['deepcopy'], ['astype', 'float32'],
            ['astype', 'int64'], ['gt', 2], ['rsub', 10], ['selfadd'], ['ndadd', 5], ['iadd', 4]]
@@ -997,16 +1110,18 @@ def _cases(tier, rng):
                 [{'sole': True, 'items': [['s', None, None, 2]]}, {'sole': True, 'items': [['s', None, None, 3]]}]):
         yield _get((40,), ixs, s0=-64)
     yield from _cat_cases(tier, rng)
+    yield from _reject_cases(tier, rng)
     yield from _op_cases(tier, rng)
 
 
 def cases(tier, rng):
-    """seven of every nine cases carry heterogeneous label / metadata objects (PALETTES 1-4) instead of plain ints"""
+    """eight of every nine cases carry heterogeneous label / metadata objects (PALETTES 1-8; 5-8 start with a FALSY label:
+    0, False, '', 0.0) instead of plain ints"""
     k = 0
     for c in _cases(tier, rng):
         if 'lab' not in c and not c.get('cn'):
             k += 1
-            c['lab'] = [0, 1, 2, 4, 3, 1, 4, 2, 0][k % 9]
+            c['lab'] = [0, 1, 5, 2, 6, 4, 7, 3, 8][k % 9]
         yield c
 
 
